@@ -1,11 +1,15 @@
 """C07 - legacy tokenization round-trips and agrees with its modular equivalent."""
 ID = "C07"
 LEVEL = "exploration"
-LEVEL_TEXT = 'Bounded: the coordinate string codec is checked completely over all coordinates < 50 (its whole vocabulary range); maze round trips for the three legacy modes and their modular equivalents on all spanning trees of 2x2/3x3 and seeded larger mazes, as token lists and joined strings; legacy vs modular token multisets compared with an independent parser; dataset-level tokenization against per-maze tokenization.'
-LEVEL_NOTE = 'Trusted: regex/str semantics of CPython (outside the SMT-decidable fragment).'
-TECHNIQUE = "bounded stand-in of the contract-based verifier: run-time checking of the real code against an independent executable statement over an enumerated scope (no function of this property is in the verified subset yet)"
-CONTRACT_MODULES = []
-PROVE = []
+LEVEL_TEXT = (
+    "PROVED (z3; any dataset length, any tokenizer, mazes and tokenizer as opaque objects): dataset-level tokenization MazeDataset.as_tokens returns the per-maze tokenization of the first "
+    "min(limit, len) mazes (all of them without a limit) in order, each joined with a single space when asked - for all four limit / join combinations. Everything else is bounded: "
+    + 'Bounded: the coordinate string codec is checked completely over all coordinates < 50 (its whole vocabulary range); maze round trips for the three legacy modes and their modular equivalents on all spanning trees of 2x2/3x3 and seeded larger mazes, as token lists and joined strings; legacy vs modular token multisets compared with an independent parser; dataset-level tokenization against per-maze tokenization.'
+)
+LEVEL_NOTE = "Trusted: regex/str semantics of CPython (outside the SMT-decidable fragment); limit >= 0."
+TECHNIQUE = "bounded run-time checking of the real tokenizers (complete coordinate codec, enumerated round trips) + a contract on dataset-level tokenization discharged by z3"
+CONTRACT_MODULES = ["contracts.dstokens"]
+PROVE = [("maze_dataset/dataset/maze_dataset.py", "MazeDataset.as_tokens")]
 ASSUMPTIONS = []
 EXPLANATION = "see DESIGN.md C07"
 
